@@ -3,6 +3,7 @@ package c15
 import (
 	"bytes"
 	"context"
+	"encoding/xml"
 	"errors"
 	"fmt"
 	"io"
@@ -11,12 +12,14 @@ import (
 	"sync"
 	"time"
 
+	"mellium.im/xmlstream"
 	"mellium.im/xmpp/ibb"
 	"mellium.im/xmpp/jid"
 	"mellium.im/xmpp/stanza"
 
 	"mellium.im/xmpp/verifharness/core"
 	"mellium.im/xmpp/verifharness/stall"
+	"mellium.im/xmpp/verifharness/xmltree"
 )
 
 // ---------------------------------------------------------------------------
@@ -575,7 +578,11 @@ func runStream(c *core.Case, tc *transferCase, k int, p *libPair, disp map[strin
 		case <-p.dead:
 			sessionDied(c, p, k, sp, "while opening")
 		default:
-			c.Violate("ibb:open:failed-though-accepted", "stream %d: Open towards a listening peer returned %v", k, err)
+			if errors.Is(err, context.DeadlineExceeded) {
+				undecided("Open was not answered")
+			} else {
+				c.Violate("ibb:open:failed-though-accepted", "stream %d: Open towards a listening peer returned %v", k, err)
+			}
 		}
 		return
 	}
@@ -668,23 +675,41 @@ func runStream(c *core.Case, tc *transferCase, k int, p *libPair, disp map[strin
 		// everything the other side's encoder has emitted (all complete 3-byte
 		// groups; the last 0-2 bytes legitimately wait for that side's close).
 		need := len(data[other]) - len(data[other])%3
-		if !rds[closer].waitCount(need, grace) {
-			// With the IQ carrier every packet was acknowledged when Flush
-			// returned: nothing else will arrive, a parked reader lost its wake-up.
-			if sp.Carrier == "iq" && parkedReader("the %s side flushed %d bytes and every packet was acknowledged, but the reader has %d", sideName[other], len(data[other]), rds[closer].count()) {
-				// go on: Close wakes the reader
-			} else if !rds[closer].waitCount(need, hardLimit) {
+		if sp.Carrier == "message" && !rds[closer].waitCount(need, 0) {
+			// Message-carried packets are not acknowledged.  An IQ sent after them
+			// on the same stream is answered only after they were all handled
+			// (one serve loop, in order): that is this carrier's acknowledgement.
+			bctx, bcancel := context.WithTimeout(context.Background(), hardLimit)
+			berr := ends[other].s.UnmarshalIQElement(bctx, xmlstream.Wrap(nil, xml.StartElement{Name: xml.Name{Space: "urn:xmpp:ping", Local: "ping"}}),
+				stanza.IQ{Type: stanza.GetIQ, To: ends[closer].s.LocalAddr()}, nil)
+			bcancel()
+			if errors.Is(berr, context.DeadlineExceeded) || errors.Is(berr, context.Canceled) {
 				select {
 				case <-p.dead:
-					sessionDied(c, p, k, sp, "while the closing side was reading")
-					return
+					sessionDied(c, p, k, sp, "while waiting for the barrier after message-carried data")
 				default:
+					undecided("the barrier IQ after message-carried data was not answered")
 				}
-				if !parkedReader("reader has %d of %d flushed bytes", rds[closer].count(), need) {
+				return
+			}
+		}
+		// Every packet has now been handled by the closing side's serve loop
+		// (acknowledged IQs, or the barrier): nothing else will arrive, so a
+		// reader that is parked in its wait has lost its wake-up.
+		if !rds[closer].waitCount(need, grace) {
+			select {
+			case <-p.dead:
+				sessionDied(c, p, k, sp, "while the closing side was reading")
+				return
+			default:
+			}
+			if !parkedReader("the %s side flushed %d bytes and every packet was handled by the peer's serve loop, but the reader has %d", sideName[other], len(data[other]), rds[closer].count()) {
+				if !rds[closer].waitCount(need, hardLimit) {
 					undecided("the closing side's reader did not get the flushed bytes")
 					return
 				}
 			}
+			// (after a reported stall the case goes on: Close wakes the reader)
 		}
 	}
 
@@ -904,8 +929,26 @@ func execTransfer(c *core.Case, tc *transferCase) {
 	}
 
 	// wire tap: consecutive numbering per direction and sid
+	views := map[string]*wireView{}
+	ibbIDs := map[string]map[string]bool{} // ids of the IBB stanzas an end sent
 	for _, e := range []*end{p.A, p.B} {
-		view := tap(e.conn.Written())
+		v := tap(e.conn.Written())
+		views[e.name] = v
+		ids := map[string]bool{}
+		for _, d := range v.Data {
+			ids[d.ID] = true
+		}
+		for _, n := range append(append([]*xmltree.Node{}, v.Opens...), v.Closes...) {
+			ids[n.Attr("id")] = true
+		}
+		ibbIDs[e.name] = ids
+	}
+	aborted := false
+	for i := range tc.Streams {
+		aborted = aborted || tc.Streams[i].Abort
+	}
+	for _, e := range []*end{p.A, p.B} {
+		view := views[e.name]
 		if view.Err != nil {
 			c.Violate("ibb:wire:malformed", "what end %s wrote does not parse: %v", e.name, view.Err)
 			continue
@@ -929,13 +972,14 @@ func execTransfer(c *core.Case, tc *transferCase) {
 				c.Violate(key, "end %s: %s", e.name, problem)
 			}
 		}
-		aborted := false
-		for i := range tc.Streams {
-			aborted = aborted || tc.Streams[i].Abort
+		peer := "A"
+		if e.name == "A" {
+			peer = "B"
 		}
 		for _, r := range view.Replies {
-			if r.Type == "error" && !aborted { // packets sent into a close are rightly refused
-				c.Violate("ibb:refusal:valid-packet", "end %s answered a packet of a healthy transfer with <%s/> (stanza id %q)", e.name, r.Cond, r.ID)
+			// packets sent into a close are rightly refused
+			if r.Type == "error" && !aborted && ibbIDs[peer][r.ID] {
+				c.Violate("ibb:refusal:valid-packet", "end %s answered an IBB stanza of a healthy transfer with <%s/> (stanza id %q)", e.name, r.Cond, r.ID)
 				break
 			}
 		}
